@@ -26,6 +26,8 @@ ORDERS = {
     "entry-only": (M.Entry,),
     "empty": (),
     "comment-first": (M.ExplicitComment, M.Entry, M.String),
+    # a type listed twice: its rank is that of the FIRST listing (tuple.index), so entries stay in front of strings here
+    "repeated-type": (M.Entry, M.String, M.Preamble, M.Entry),
 }
 
 
@@ -289,7 +291,7 @@ def main():
     chk.bounds = {"libraries": f"{len(seqs)} kind sequences (all of length <= {nmax}" + (" plus selected length-4" if chk.tier == "quick" else "") + ") over String/Preamble/Entry/ImplicitComment/ExplicitComment/ParsingFailedBlock",
                   "keys": "every String/Entry key one symbolic character over {a,b} (collisions produce DuplicateBlockKeyBlock wrappers)",
                   "orders": sorted(ORDERS), "comment modes": [True, False]}
-    chk.assumptions = ["block_type_order ranges over the five listed orders (full, reversed, single, empty, partial)", "keys are one character; empty keys occur through key-less blocks and through an entry whose key is the empty string"]
+    chk.assumptions = ["block_type_order ranges over the six listed orders (full, reversed, single, empty, partial, one type listed twice)", "keys are one character; empty keys occur through key-less blocks and through an entry whose key is the empty string"]
     chk.expected_vacuity = ["reordered", "duplicate-wrapper-sorted", "instance-reused"]
     # comments with empty text, and comments that compare equal to one another (a comment is a comment by type, and the
     # comment run above a block is found by position, not by value)
